@@ -509,6 +509,26 @@ def run(sched):
 
         w.loop.fake_readers[sock.fileno()] = (reader, cbargs)
 
+        # armed synchronous send failures: the next n request datagrams to remote r are refused by the (fake) kernel
+        # inside sendmsg, which the real transport reports through error_received while still sending
+        faults = {}
+
+        def send_fault(address, data):
+            r = rnum(address) if address is not None else 0
+            try:
+                is_req = 1 <= wire.decode(data)["code"] < 32
+            except wire.ParseError:
+                is_req = False
+            if is_req and faults.get(r, 0) > 0:
+                faults[r] -= 1
+                ev("err", r=r, x="sync")
+                import errno as _errno
+
+                return OSError(faults.get(("errno", r), _errno.ENETUNREACH), "Network is unreachable")
+            return None
+
+        sock.send_fault = send_fault
+
         other = None
         state["other_sock"] = None
         if sched.get("other_context"):
@@ -535,6 +555,8 @@ def run(sched):
                 if step.get("payload_len"):
                     m.payload = bytes(range(256)) * (step["payload_len"] // 256) + bytes(range(step["payload_len"] % 256))
                 which = other if step.get("ctx") == "other" else ctx
+                if step.get("fault"):
+                    faults[step["r"]] = step["fault"]
                 try:
                     if step.get("mc"):
                         from aiocoap.transports.udp6 import UDP6EndpointAddress
